@@ -760,13 +760,27 @@ func (pr *Program) AnalysisC20(derived map[string]string) []*Obligation {
 				continue
 			}
 			u := pr.storeUseOf(fi, modPath, memo, map[*FuncInfo]bool{})
+			rank := func(f *FuncInfo) int {
+				// package-level function of the module root > keeper method > anything else; AppModule wrappers never
+				sig := f.Obj.Type().(*types.Signature)
+				if sig.Recv() != nil && strings.Contains(namedPath(sig.Recv().Type()), "AppModule") {
+					return -1
+				}
+				if sig.Recv() == nil && f.Pkg.Path == modPath {
+					return 3
+				}
+				if sig.Recv() == nil {
+					return 2
+				}
+				return 1
+			}
 			switch fi.Obj.Name() {
 			case "ExportGenesis":
-				if export == nil || fi.Pkg.Path == modPath {
+				if rank(fi) > 0 && (export == nil || rank(fi) > rank(export) || (rank(fi) == rank(export) && fi.Obj.Pos() < export.Obj.Pos())) {
 					export = fi
 				}
 			case "InitGenesis":
-				if initg == nil || fi.Pkg.Path == modPath {
+				if rank(fi) > 0 && (initg == nil || rank(fi) > rank(initg) || (rank(fi) == rank(initg) && fi.Obj.Pos() < initg.Obj.Pos())) {
 					initg = fi
 				}
 			default:
@@ -781,6 +795,7 @@ func (pr *Program) AnalysisC20(derived map[string]string) []*Obligation {
 		}
 		eu := pr.storeUseOf(export, modPath, memo, map[*FuncInfo]bool{})
 		iu := pr.storeUseOf(initg, modPath, memo, map[*FuncInfo]bool{})
+		out = append(out, pr.genesisFieldRoundTrip(m, modPath, export, initg, memo)...)
 		var ks []string
 		for k := range written {
 			ks = append(ks, k)
@@ -848,5 +863,214 @@ func (pr *Program) localInits(v *types.Var, info *types.Info) []ast.Expr {
 		}
 	}
 	pr.localInitMemo[v] = out
+	return out
+}
+
+// genesisFieldRoundTrip: every field of the exported GenesisState that is filled from the store is written back by
+// InitGenesis into (one of) the store families it was read from, with a value that comes from that same field.
+func (pr *Program) genesisFieldRoundTrip(m, modPath string, export, initg *FuncInfo, memo map[*FuncInfo]*storeUse) []*Obligation {
+	var out []*Obligation
+	einfo := export.Pkg.P.TypesInfo
+	// 1. the returned composite value: NewGenesisState(args...) or &types.GenesisState{...}
+	fieldExpr := map[string]ast.Expr{}
+	var order []string
+	ast.Inspect(export.Decl.Body, func(n ast.Node) bool {
+		switch n := n.(type) {
+		case *ast.CallExpr:
+			var fn *types.Func
+			switch f := unparen(n.Fun).(type) {
+			case *ast.SelectorExpr:
+				if einfo.Selections[f] == nil {
+					fn, _ = einfo.Uses[f.Sel].(*types.Func)
+				}
+			case *ast.Ident:
+				fn, _ = einfo.Uses[f].(*types.Func)
+			}
+			if fn == nil || fn.Name() != "NewGenesisState" {
+				return true
+			}
+			ctor := pr.Funcs[fn]
+			if ctor == nil || ctor.Decl.Body == nil {
+				return true
+			}
+			// parameter -> field through the struct literal in the constructor
+			cinfo := ctor.Pkg.P.TypesInfo
+			paramIdx := map[types.Object]int{}
+			i := 0
+			for _, fl := range ctor.Decl.Type.Params.List {
+				for _, nm := range fl.Names {
+					paramIdx[cinfo.Defs[nm]] = i
+					i++
+				}
+			}
+			ast.Inspect(ctor.Decl.Body, func(c ast.Node) bool {
+				if kv, ok := c.(*ast.KeyValueExpr); ok {
+					if k, ok := kv.Key.(*ast.Ident); ok {
+						if v, ok := kv.Value.(*ast.Ident); ok {
+							if idx, ok := paramIdx[cinfo.Uses[v]]; ok && idx < len(n.Args) {
+								if _, dup := fieldExpr[k.Name]; !dup {
+									fieldExpr[k.Name] = n.Args[idx]
+									order = append(order, k.Name)
+								}
+							}
+						}
+					}
+				}
+				return true
+			})
+		case *ast.CompositeLit:
+			if t := einfo.TypeOf(n); t != nil && strings.HasSuffix(namedPath(t), ".GenesisState") {
+				for _, el := range n.Elts {
+					if kv, ok := el.(*ast.KeyValueExpr); ok {
+						if k, ok := kv.Key.(*ast.Ident); ok {
+							if _, dup := fieldExpr[k.Name]; !dup {
+								fieldExpr[k.Name] = kv.Value
+								order = append(order, k.Name)
+							}
+						}
+					}
+				}
+			}
+		}
+		return true
+	})
+	if len(fieldExpr) == 0 {
+		return out
+	}
+	readsOfExpr := func(e ast.Expr, fi *FuncInfo) map[string]bool {
+		r := map[string]bool{}
+		info := fi.Pkg.P.TypesInfo
+		var visit func(e ast.Node, depth int)
+		visit = func(e ast.Node, depth int) {
+			ast.Inspect(e, func(n ast.Node) bool {
+				switch n := n.(type) {
+				case *ast.CallExpr:
+					var obj types.Object
+					switch f := unparen(n.Fun).(type) {
+					case *ast.SelectorExpr:
+						if sel := info.Selections[f]; sel != nil {
+							obj = sel.Obj()
+						} else {
+							obj = info.Uses[f.Sel]
+						}
+					case *ast.Ident:
+						obj = info.Uses[f]
+					}
+					if fn, ok := obj.(*types.Func); ok {
+						if callee := pr.Funcs[fn]; callee != nil && strings.HasPrefix(callee.Pkg.Path, modPath) {
+							u := pr.storeUseOf(callee, modPath, memo, map[*FuncInfo]bool{})
+							for k := range u.reads {
+								r[k] = true
+							}
+						}
+					}
+				case *ast.Ident:
+					if v, ok := info.Uses[n].(*types.Var); ok && v.Pkg() != nil && v.Parent() != v.Pkg().Scope() && depth < 3 {
+						for _, init := range pr.localInits(v, info) {
+							visit(init, depth+1)
+						}
+					}
+				}
+				return true
+			})
+		}
+		visit(e, 0)
+		return r
+	}
+	// 2. InitGenesis: statements that use state.<Field>
+	iinfo := initg.Pkg.P.TypesInfo
+	var stateObj types.Object
+	for _, fl := range initg.Decl.Type.Params.List {
+		for _, nm := range fl.Names {
+			if o := iinfo.Defs[nm]; o != nil && strings.HasSuffix(namedPath(o.Type()), ".GenesisState") {
+				stateObj = o
+			}
+		}
+	}
+	writesOfField := map[string]map[string]bool{}
+	usesField := map[string]bool{}
+	if stateObj != nil {
+		for _, st := range initg.Decl.Body.List {
+			fields := map[string]bool{}
+			var collect func(n ast.Node, depth int)
+			collect = func(n ast.Node, depth int) {
+				ast.Inspect(n, func(n ast.Node) bool {
+					switch n := n.(type) {
+					case *ast.SelectorExpr:
+						if id, ok := n.X.(*ast.Ident); ok && iinfo.Uses[id] == stateObj {
+							fields[n.Sel.Name] = true
+						}
+					case *ast.Ident:
+						// a local that was initialised / assigned from a genesis field carries that field
+						if v, ok := iinfo.Uses[n].(*types.Var); ok && v != stateObj && v.Pkg() != nil && v.Parent() != v.Pkg().Scope() && depth < 3 {
+							for _, init := range pr.localInits(v, iinfo) {
+								collect(init, depth+1)
+							}
+						}
+					}
+					return true
+				})
+			}
+			collect(st, 0)
+			if len(fields) == 0 {
+				continue
+			}
+			w := map[string]bool{}
+			ast.Inspect(st, func(n ast.Node) bool {
+				call, ok := n.(*ast.CallExpr)
+				if !ok {
+					return true
+				}
+				if se, ok := unparen(call.Fun).(*ast.SelectorExpr); ok {
+					if sel := iinfo.Selections[se]; sel != nil {
+						if fn, ok := sel.Obj().(*types.Func); ok {
+							if callee := pr.Funcs[fn]; callee != nil && strings.HasPrefix(callee.Pkg.Path, modPath) {
+								u := pr.storeUseOf(callee, modPath, memo, map[*FuncInfo]bool{})
+								for k := range u.writes {
+									w[k] = true
+								}
+							}
+						}
+					}
+				}
+				return true
+			})
+			for f := range fields {
+				usesField[f] = true
+				if writesOfField[f] == nil {
+					writesOfField[f] = map[string]bool{}
+				}
+				for k := range w {
+					writesOfField[f][k] = true
+				}
+			}
+		}
+	}
+	for _, f := range order {
+		r := readsOfExpr(fieldExpr[f], export)
+		if len(r) == 0 {
+			continue // not filled from the store (constant / params handled elsewhere)
+		}
+		ok := false
+		for k := range r {
+			if writesOfField[f][k] {
+				ok = true
+			}
+		}
+		var rs []string
+		for k := range r {
+			rs = append(rs, k)
+		}
+		sort.Strings(rs)
+		src := "genesis field " + f + " (exported from " + strings.Join(rs, ",") + ") is written back to that store from the same field by InitGenesis"
+		if !ok {
+			if !usesField[f] {
+				src = "genesis field " + f + " (exported from " + strings.Join(rs, ",") + ") is never used by InitGenesis: the exported value is dropped on import"
+			} else {
+				src = "genesis field " + f + " (exported from " + strings.Join(rs, ",") + ") is used by InitGenesis but never written back to the store family it came from"
+			}
+		}
+		out = append(out, staticObl(fmt.Sprintf("x/%s/roundtrip#%s", m, f), "C20", "frame", ok, "x/"+m, src))
+	}
 	return out
 }
